@@ -11,7 +11,10 @@ Tie to /repo, re-checked on every run:
       (b) the state machines are run inside Coq (vm_compute) on the same call histories as the real loss
       objects (calls, new gaze lists, gaze lists edited in place, tensors edited in place, new sizes); the
       descriptor the model returns is evaluated with fresh objects and compared with what the object with
-      the history returned.
+      the history returned; the implementation's cache behaviour is OBSERVED as well (calls of the LOD-map
+      helpers and of the pyramid constructor are counted per loss call) and compared with the model's
+      recompute / reuse events: a reuse by the code where the model recomputes means a cache key that misses
+      an argument (gaze moves from 1e-6 to 0.3, one coordinate only, few-ulp target edits are in the histories).
 Direct oracles state every clause on the implementation and give replayable failing inputs.
 """
 import json, math, re
@@ -20,7 +23,11 @@ import torch
 from harness.common import zlit, qlit, listlit
 from tracer import emit
 
-PROPS = ['C17_mse_nonneg', 'C17_mse_zero_iff', 'C17_multiplane_nonneg', 'C17_multiplane_zero',
+PROPS = ['C17_ms_tv_nonneg', 'C17_ms_tv_uniform', 'C17_speckle_uniform_window', 'C17_speckle_finite_refuted', 'C17_speckle_finite_partial',
+         'C17_stats_loss_nonneg', 'C17_stats_loss_identity', 'C17_metameric_value_nonneg', 'C17_metameric_value_identity',
+         'C17_blur_lowpass_value_nonneg', 'C17_blur_lowpass_value_identity', 'C17_blur_match_value_nonneg', 'C17_metamer_mse_value_nonneg',
+         'C17_metamer_mse_value_zero', 'C17_lod_hit_iff_key', 'C17_lod_miss_recomputes', 'C17_metameric_reuse_iff_key', 'C17_metamer_mse_reuse_iff_key',
+         'C17_mse_nonneg', 'C17_mse_zero_iff', 'C17_multiplane_nonneg', 'C17_multiplane_zero',
          'C17_perceptual_multiplane_nonneg', 'C17_perceptual_multiplane_zero',
          'C17_wmse_nonneg', 'C17_wmse_sum_nonneg', 'C17_wmse_zero', 'C17_wmse_sum_zero', 'C17_wmse_closed',
          'C17_wmse_term_periodic', 'C17_wmse_periodic', 'C17_wmse_sum_periodic',
@@ -34,7 +41,10 @@ PROPS = ['C17_mse_nonneg', 'C17_mse_zero_iff', 'C17_multiplane_nonneg', 'C17_mul
          'C17_legacy_blur_refuted', 'C17_legacy_metameric_size_crash', 'C17_instance']
 PRE = ('From Coq Require Import ZArith List QArith. Import ListNotations.\n'
        'From OdakV Require Import C17.Model.\nOpen Scope Z_scope.')
-ZERO_TOL = 1e-12          # "zero at identity": identical computations on both sides, nothing to round
+ZERO_TOL = 1e-12          # "zero at identity": identical computations on both sides, nothing to round (deterministic
+                          # because ./check pins OMP_NUM_THREADS=1: the reduction order is then fixed)
+GU = 1000000              # gaze unit of the model: a model gaze (gx, gy) denotes [gx / GU, gy / GU]
+T = 100000                # one tenth
 SPECKLE_TOL = 1e-4        # speckle loss of a uniform positive image (float32 cancellation residue ~1e-6)
 HIST_RTOL = 1e-6
 
@@ -78,13 +88,52 @@ SHAPES = {3032: (1, 3, 32, 32), 3048: (1, 3, 48, 48), 1032: (1, 1, 32, 32), 3040
 def content_tensor(content, base_seed=0):
     """the tensor denoted by a model content (shape code, data id); data 0 is the all-zero tensor"""
     code, d = content
+    if d >= 100:
+        # data 100 + k: tensor k with ONE pixel (all channels) moved by 2e-6 relative (1e-6 absolute on zeros): a few ulp,
+        # enough to survive odak's own preprocessing (RGB -> YCrCb rounds a 1-ulp change of one channel away, and the
+        # cache legitimately compares the converted target) and far below allclose / isclose default tolerances
+        x = content_tensor((code, d - 100), base_seed).clone()
+        x[0, :, 0, 0] = x[0, :, 0, 0] * (1 + 2e-6) + (1e-6 if d == 100 else 0.0)
+        return x
     if d == 0:
         return torch.zeros(*SHAPES[code])
     return rand_tensor(SHAPES[code], 7919 * d + code + base_seed)
 
 
 def gaze_val(g):
-    return [g[0] / 10.0, g[1] / 10.0]
+    return [g[0] / GU, g[1] / GU]
+
+
+class Counters:
+    """Counts, while active, the calls of the helpers that (re)compute cached values: the LOD-map builders used by
+    RadiallyVaryingBlur and SpatialSteerablePyramid.construct_pyramid (one per statistics computation)."""
+    def __init__(self):
+        self.lod = 0; self.pyr = 0; self.ok = True; self._undo = []
+
+    def __enter__(self):
+        try:
+            import odak.learn.perception.radially_varying_blur as rvb
+            import odak.learn.perception.spatial_steerable_pyramid as ssp
+            for name in ('make_pooling_size_map_lod', 'make_equi_pooling_size_map_lod'):
+                orig = getattr(rvb, name)
+                def wrapped(*a, _o=orig, **k):
+                    self.lod += 1
+                    return _o(*a, **k)
+                setattr(rvb, name, wrapped); self._undo.append((rvb, name, orig))
+            cls = ssp.SpatialSteerablePyramid
+            orig = cls.construct_pyramid
+            def wrapped(obj, *a, _o=orig, **k):
+                self.pyr += 1
+                return _o(obj, *a, **k)
+            cls.construct_pyramid = wrapped; self._undo.append((cls, 'construct_pyramid', orig))
+        except Exception:
+            self.ok = False
+        return self
+
+    def __exit__(self, *a):
+        for obj, name, orig in reversed(self._undo):
+            setattr(obj, name, orig)
+        return False
 
 
 def call_loss(kind, obj, img, tgt, gaze):
@@ -127,10 +176,12 @@ def run_history(kind, env, ops):
     for op in ops:
         if op[0] == 'call':
             _, i, t, g = op
-            out.append((call_loss(kind, obj, tensors[i], tensors[t], gazes[g]), contents[i], contents[t], gvals[g]))
+            with Counters() as cnt:
+                v = call_loss(kind, obj, tensors[i], tensors[t], gazes[g])
+            out.append((v, contents[i], contents[t], gvals[g], (cnt.lod, cnt.pyr) if cnt.ok else None))
         elif op[0] == 'setgaze':
             _, g, v = op
-            gazes[g][0], gazes[g][1] = v[0] / 10.0, v[1] / 10.0          # in place: same list object
+            gazes[g][0], gazes[g][1] = v[0] / GU, v[1] / GU              # in place: same list object
             gvals[g] = tuple(v)
         elif op[0] == 'setdata':
             _, t, d = op
@@ -185,10 +236,11 @@ def eval_descriptor(fresh, kind, d):
 
 def gen_histories(ctx):
     """(label, env, ops) — exhaustive short histories over 2 gazes x 2 targets x 2 sizes, the boundary classes
-    named by the property, and random histories with in-place edits."""
+    named by the property (incl. gaze moves at every scale from 1e-6 to 0.3, one coordinate only, few-ulp target
+    edits), and random histories with in-place edits.  Gazes are in units of 1/GU."""
     rng = ctx.rng
     hs = []
-    base = {'tensors': [(3032, 1), (3032, 2), (3032, 3), (3048, 4), (3048, 5), (3048, 6)], 'gazes': [(5, 5), (1, 9)]}
+    base = {'tensors': [(3032, 1), (3032, 2), (3032, 3), (3048, 4), (3048, 5), (3048, 6)], 'gazes': [(5 * T, 5 * T), (1 * T, 9 * T)]}
     opts = [(0, t, g) for t in (1, 2) for g in (0, 1)] + [(3, t, g) for t in (4, 5) for g in (0, 1)]
     depth = 3 if ctx.thorough else 2
     def rec(prefix):
@@ -199,12 +251,13 @@ def gen_histories(ctx):
                 rec(prefix + [o])
     rec([])
     # boundary classes
-    b = {'tensors': [(3032, 1), (3032, 2), (3032, 0), (3048, 3), (3048, 4), (1032, 5), (1032, 6), (3032, 7)], 'gazes': [(5, 5), (1, 9), (5, 5)]}
+    b = {'tensors': [(3032, 1), (3032, 2), (3032, 0), (3048, 3), (3048, 4), (1032, 5), (1032, 6), (3032, 7), (3032, 102), (3032, 100)],
+         'gazes': [(5 * T, 5 * T), (1 * T, 9 * T), (5 * T, 5 * T)]}
     hs += [
         ('same-target-new-gaze', b, [['call', 0, 1, 0], ['call', 0, 1, 1], ['call', 0, 1, 0]]),
         ('same-target-equal-gaze-other-list', b, [['call', 0, 1, 0], ['call', 0, 1, 2], ['call', 7, 1, 2]]),
-        ('gaze-edited-in-place', b, [['call', 0, 1, 0], ['setgaze', 0, [2, 8]], ['call', 0, 1, 0], ['setgaze', 0, [5, 5]], ['call', 0, 1, 0]]),
-        ('gaze-edited-in-place-twice', b, [['call', 0, 1, 1], ['setgaze', 1, [9, 1]], ['setgaze', 1, [0, 0]], ['call', 7, 1, 1], ['call', 0, 1, 0]]),
+        ('gaze-edited-in-place', b, [['call', 0, 1, 0], ['setgaze', 0, [2 * T, 8 * T]], ['call', 0, 1, 0], ['setgaze', 0, [5 * T, 5 * T]], ['call', 0, 1, 0]]),
+        ('gaze-edited-in-place-twice', b, [['call', 0, 1, 1], ['setgaze', 1, [9 * T, 1 * T]], ['setgaze', 1, [0, 0]], ['call', 7, 1, 1], ['call', 0, 1, 0]]),
         ('new-size', b, [['call', 0, 1, 0], ['call', 3, 4, 0], ['call', 0, 1, 0]]),
         ('new-size-new-gaze', b, [['call', 3, 4, 1], ['call', 0, 1, 0], ['call', 3, 4, 0]]),
         ('new-channels', b, [['call', 0, 1, 0], ['call', 5, 6, 0], ['call', 0, 1, 0]]),
@@ -212,18 +265,37 @@ def gen_histories(ctx):
         ('zero-target-later', b, [['call', 0, 1, 0], ['call', 0, 2, 0], ['call', 2, 2, 1]]),
         ('target-edited-in-place', b, [['call', 0, 1, 0], ['setdata', 1, 9], ['call', 0, 1, 0], ['setdata', 1, 2], ['call', 0, 1, 0]]),
         ('target-zeroed-in-place', b, [['call', 0, 1, 0], ['setdata', 1, 0], ['call', 0, 1, 0]]),
+        ('target-few-ulp-in-place', b, [['call', 0, 1, 0], ['setdata', 1, 102], ['call', 0, 1, 0], ['setdata', 1, 2], ['call', 0, 1, 0]]),
+        ('target-few-ulp-other-tensor', b, [['call', 0, 1, 0], ['call', 0, 8, 0], ['call', 0, 1, 0], ['call', 0, 2, 0], ['call', 0, 9, 0]]),
         ('image-is-target', b, [['call', 1, 1, 0], ['call', 0, 1, 0], ['call', 1, 1, 1]]),
         ('shape-mismatch-raises-and-leaves-state', b, [['call', 0, 1, 0], ['call', 3, 1, 0], ['call', 0, 1, 1], ['call', 0, 1, 0]]),
         ('image-changes-only', b, [['call', 0, 1, 0], ['call', 7, 1, 0], ['setdata', 7, 8], ['call', 7, 1, 0]]),
     ]
-    # random histories
+    # gaze moves at several scales, through a new list and through an in-place edit, both / one coordinate
+    for step in (1, 1000, 50000, 80000, 300000):            # 1e-6, 1e-3, 0.05, 0.08, 0.3
+        for (dx, dy) in ((step, step), (step, 0), (0, -step)):
+            g0 = (rng.choice([3, 4, 5, 6]) * T + rng.randint(0, 999) * 7, rng.choice([3, 4, 5, 6]) * T + rng.randint(0, 999) * 3)
+            g1 = (g0[0] + dx, g0[1] + dy)
+            e = {'tensors': [(3032, 1), (3032, 2), (3032, 3)], 'gazes': [g0, g1]}
+            tag = 'gaze-step-%g%s' % (step / GU, '' if dx and dy else '-one-coordinate')
+            hs.append((tag + '-new-list', e, [['call', 0, 1, 0], ['call', 0, 1, 1], ['call', 2, 1, 0]]))
+            hs.append((tag + '-in-place', e, [['call', 0, 1, 0], ['setgaze', 0, list(g1)], ['call', 0, 1, 0], ['setgaze', 0, list(g0)], ['call', 2, 1, 0]]))
+    # random histories (off-grid gazes, small and large moves, 1-ulp data variants)
     n = 60 if ctx.thorough else 14
+    def rgaze(near=None):
+        if near is not None and rng.random() < 0.6:
+            st = rng.choice([1, 10, 1000, 20000, 50000, 80000])
+            return (max(0, min(GU, near[0] + rng.choice([-st, 0, st]))), max(0, min(GU, near[1] + rng.choice([-st, 0, st]))))
+        return (rng.randint(0, GU), rng.randint(0, GU)) if rng.random() < 0.7 else (rng.randint(0, 10) * T, rng.randint(0, 10) * T)
     for k in range(n):
         codes = [rng.choice([3032, 3032, 3048, 1032]) for _ in range(3)]
         tens = []
         for c in codes:
-            tens += [(c, rng.choice([0, 1, 2, 3, 4, 5, 6, 7, 8, 9])), (c, rng.randint(1, 9))]
-        env = {'tensors': tens, 'gazes': [(rng.randint(0, 10), rng.randint(0, 10)) for _ in range(3)]}
+            d = rng.randint(0, 9)
+            tens += [(c, d), (c, rng.choice([rng.randint(1, 9), d + 100]))]
+        g0 = rgaze()
+        gz = [g0, rgaze(g0), rgaze(g0)]
+        env = {'tensors': tens, 'gazes': list(gz)}
         ops = []
         for _ in range(rng.randint(4, 9)):
             r = rng.random()
@@ -233,9 +305,10 @@ def gen_histories(ctx):
                 i = rng.choice(same) if rng.random() < 0.95 else rng.randrange(len(tens))
                 ops.append(['call', i, t, rng.randrange(3)])
             elif r < 0.85:
-                ops.append(['setgaze', rng.randrange(3), [rng.randint(0, 10), rng.randint(0, 10)]])
+                j = rng.randrange(3); gz[j] = rgaze(gz[j])
+                ops.append(['setgaze', j, list(gz[j])])
             else:
-                ops.append(['setdata', rng.randrange(len(tens)), rng.randint(0, 9)])
+                ops.append(['setdata', rng.randrange(len(tens)), rng.choice([rng.randint(0, 9), rng.randint(100, 109)])])
         if not any(o[0] == 'call' for o in ops):
             ops.append(['call', 0, 0, 0])
         hs.append(('random', env, ops))
@@ -248,7 +321,7 @@ def oracle_history(inp):
     fresh = inp.get('_fresh') or Fresh()
     recs = run_history(kind, env, ops)
     out = []
-    for k, (obs, ci, ct, g) in enumerate(recs):
+    for k, (obs, ci, ct, g, _) in enumerate(recs):
         exp = fresh(kind, ci, ct, g)
         ok = close(obs, exp)
         clause = 'history_independent'
@@ -362,6 +435,12 @@ def oracle_speckle(inp):
         x = torch.full(tuple(inp['shape']), float(inp['uniform']))
         v = sc(x)
         return [('uniform_finite', fin(v), 'finite', val(v)), ('uniform_zero', fin(v) and 0 <= float(v) <= SPECKLE_TOL, '0 (<= %g)' % SPECKLE_TOL, val(v))]
+    if inp.get('dark') is not None:            # a non-negative intensity with a dark block at least as large as the window
+        x = rand_tensor(tuple(inp['shape']), inp['seed'], 1.0, 0.05)
+        r0, c0, n = inp['dark']
+        x[..., r0:r0 + n, c0:c0 + n] = 0.0
+        v = sc(x)
+        return [('finite_dark_window', fin(v), 'finite', val(v))]
     x = rand_tensor(tuple(inp['shape']), inp['seed'], inp.get('scale', 1.0), inp.get('shift', 0.05))
     if inp.get('flat'):                       # nearly uniform: the cancellation regime
         x = torch.full(tuple(inp['shape']), float(inp['flat'])) + 1e-4 * (x - 0.5)
@@ -420,7 +499,7 @@ def oracle_stateless(inp):
             'speckle': oracle_speckle, 'phase_gradient': oracle_phase_gradient, 'gaze_loss': oracle_gaze_loss}[inp['family']](inp)
 
 
-ORACLES = {'stateless': oracle_stateless, 'history': oracle_history}
+ORACLES = {'stateless': oracle_stateless, 'history': oracle_history}      # + 'rvb' (defined below)
 FN = {'wmse': 'odak.learn.tools.wrapped_mean_squared_error', 'tv': 'odak.learn.tools.total_variation_loss',
       'hist': 'odak.learn.tools.histogram_loss', 'multiplane': 'odak.learn.wave.multiplane_loss', 'psnr': 'odak.learn.perception.PSNR',
       'speckle': 'odak.learn.wave.speckle_contrast', 'phase_gradient': 'odak.learn.wave.phase_gradient'}
@@ -429,6 +508,8 @@ CLS = {'blur_lowpass': 'BlurLoss', 'blur_match': 'BlurLoss', 'metameric': 'Metam
 
 
 def fname(name, inp):
+    if name == 'rvb':
+        return 'odak.learn.perception.RadiallyVaryingBlur'
     if name == 'history' or inp.get('family') == 'gaze_loss':
         return 'odak.learn.perception.' + CLS[inp['kind']]
     if inp.get('family') == 'multiplane' and inp.get('perceptual'):
@@ -454,6 +535,89 @@ def apply_oracle(ctx, name, inp, fresh=None):
             if seen[key] <= 3:                       # a few inputs per (function, clause); the rest is counted only
                 ctx.violation(fname(name, inp), clause, dict(inp, oracle=name), exp, obs)
     return bad, res
+
+
+# ================================================================ RadiallyVaryingBlur: the cache key, argument by argument
+RVB_BASE = {'alpha': 0.2, 'real_image_width': 0.2, 'real_viewing_distance': 0.7, 'centre': [0.43, 0.61], 'mode': 'quadratic', 'equi': False}
+
+
+def rvb_args(a):
+    return dict(alpha=a['alpha'], real_image_width=a['real_image_width'], real_viewing_distance=a['real_viewing_distance'],
+                centre=list(a['centre']), mode=a['mode'], equi=a['equi'])
+
+
+def oracle_rvb(inp):
+    """blur(image, args2) after blur(image1, args1) on the same object = blur(image, args2) on a fresh object;
+    also reports whether the LOD helper ran on the second call (structural, see rvb_key_check)"""
+    import odak.learn.perception as P
+    a1, a2 = inp['first'], inp['second']
+    x1 = rand_tensor(tuple(a1['shape']), inp['seed']); x2 = rand_tensor(tuple(a2['shape']), inp['seed'] + 1)
+    r = P.RadiallyVaryingBlur()
+    r.blur(x1, **rvb_args(a1))
+    with Counters() as cnt:
+        y = r.blur(x2, **rvb_args(a2))
+    f = P.RadiallyVaryingBlur().blur(x2, **rvb_args(a2))
+    same = tuple(y.shape) == tuple(f.shape) and bool(torch.allclose(y, f, rtol=1e-6, atol=1e-7))
+    inp['_lod_calls'] = cnt.lod if cnt.ok else None
+    return [('blur_history_independent', same, 'the blur of a fresh object', {'max_abs_difference': float((y - f).abs().max()) if tuple(y.shape) == tuple(f.shape) else 'shape'})]
+
+
+def gen_rvb(ctx):
+    rng = ctx.rng
+    cases = []
+    shape = [1, 3, 24, 32]
+    def first():
+        a = dict(RVB_BASE); a['centre'] = [round(rng.uniform(0.2, 0.8), 4), round(rng.uniform(0.2, 0.8), 4)]; a['shape'] = list(shape); return a
+    def variants(a):
+        out = [('none', dict(a))]
+        for st in (1e-6, 1e-3, 0.05, 0.08, 0.3):
+            for (dx, dy) in ((st, 0), (0, -st), (st, st)):
+                b = dict(a); b['centre'] = [a['centre'][0] + dx, a['centre'][1] + dy]; out.append(('centre%+g,%+g' % (dx, dy), b))
+        for key in ('alpha', 'real_image_width', 'real_viewing_distance'):
+            for rel in (1e-6, 1e-3, 0.08, 0.5):
+                b = dict(a); b[key] = a[key] * (1 + rel); out.append(('%s*(1%+g)' % (key, rel), b))
+        b = dict(a); b['mode'] = 'linear'; out.append(('mode', b))
+        b = dict(a); b['equi'] = True; out.append(('equi', b))
+        for sh in ([1, 3, 24, 33], [1, 3, 25, 32], [1, 1, 24, 32], [1, 3, 32, 24]):
+            b = dict(a); b['shape'] = sh; out.append(('shape%s' % sh, b))
+        return out
+    for rep in range(2 if ctx.thorough else 1):
+        a = first()
+        vs = variants(a)
+        for name, b in vs:
+            cases.append({'family': 'rvb', 'change': name, 'first': a, 'second': b, 'seed': rng.randrange(10 ** 6)})
+        for _ in range(6):                                  # two arguments at once
+            (n1, b1), (n2, b2) = rng.sample(vs[1:], 2)
+            b = dict(a)
+            for k_ in b1:
+                if b1[k_] != a[k_]: b[k_] = b1[k_]
+            for k_ in b2:
+                if b2[k_] != a[k_]: b[k_] = b2[k_]
+            cases.append({'family': 'rvb', 'change': n1 + ' & ' + n2, 'first': a, 'second': b, 'seed': rng.randrange(10 ** 6)})
+    return cases
+
+
+def rvb_key_check(ctx):
+    missed = []; n = 0; noinstr = 0
+    for inp in gen_rvb(ctx):
+        arg = dict(inp)
+        try:
+            res = oracle_rvb(arg)
+        except Exception as e:
+            res = [('no_exception', False, 'a result', repr(e)[:300])]
+        for clause, ok, exp, obs in res:
+            if not ok:
+                ctx.violation('odak.learn.perception.RadiallyVaryingBlur', clause, dict(inp, oracle='rvb'), exp, obs)
+        changed = inp['first'] != inp['second']
+        lod = arg.get('_lod_calls')
+        n += 1; ctx.traces += 1
+        ctx.case('rvb-key/%s' % ('unchanged' if not changed else inp['change'].split('*')[0].split('+')[0].split('-')[0].split('[')[0]), json.dumps(inp, sort_keys=True))
+        if lod is None:
+            noinstr += 1
+        elif changed and lod == 0:
+            missed.append(inp['change'])
+    ctx.obligation('structure:RadiallyVaryingBlur-cache-key(every changed argument forces a new LOD map: %d argument changes at several scales)' % n,
+                   not missed and n > 0 and noinstr == 0, ('reused after a change of: %s' % missed[:8]) if missed else ('instrumentation missing' if noinstr else ''))
 
 
 # ================================================================ generators for the stateless clauses
@@ -494,6 +658,10 @@ def gen_stateless(ctx):
         cs.append({'family': 'speckle', 'shape': [side, side], 'kernel': ks, 'step': rng.choice([[1, 1], [2, 2]]), 'uniform': u})
     for k in range(6 * n):
         cs.append({'family': 'speckle', 'shape': [12, 12], 'kernel': rng.choice([3, 11]), 'seed': rng.randrange(10 ** 6), 'flat': rng.choice([0.3, 0.5, 1.0, 2.0])})
+    for k in range(2 * n):                         # dark windows (zero-padded or masked intensities): open finding
+        ks = rng.choice([2, 3, 5])
+        cs.append({'family': 'speckle', 'shape': [12, 14], 'kernel': ks, 'step': [1, 1], 'seed': rng.randrange(10 ** 6), 'dark': [rng.randint(0, 4), rng.randint(0, 4), ks + rng.randint(0, 3)]})
+    cs.append({'family': 'speckle', 'shape': [8, 8], 'kernel': 3, 'step': [1, 1], 'seed': 1, 'dark': [0, 0, 8]})
     for k in range(8 * n):
         cs.append({'family': 'phase_gradient', 'shape': [rng.randint(3, 12), rng.randint(3, 12)], 'seed': rng.randrange(10 ** 6), 'scale': rng.choice([6.2831853, 1.0, 1e-3, 1e3])})
     for u in [0.0, 0.7, 3.14159, -2.0, 100.0]:
@@ -502,11 +670,11 @@ def gen_stateless(ctx):
         for k in range(3 * n):
             # MetamerMSELoss documents RGB input only (its metamer generator converts RGB -> YCrCb unconditionally)
             cs.append({'family': 'gaze_loss', 'kind': kind, 'code': rng.choice([3032, 3048, 3040] + ([] if kind == 'metamer_mse' else [1032])), 'img': rng.randint(1, 9), 'tgt': rng.randint(1, 9),
-                       'gaze': [rng.randint(0, 10), rng.randint(0, 10)]})
+                       'gaze': rng.choice([[rng.randint(0, 10) * T, rng.randint(0, 10) * T], [rng.randint(0, GU), rng.randint(0, GU)]])})
         # boundary: zero target / zero image, gaze on a corner, tiny and large intensities
-        cs.append({'family': 'gaze_loss', 'kind': kind, 'code': 3032, 'img': 1, 'tgt': 0, 'gaze': [5, 5]})
+        cs.append({'family': 'gaze_loss', 'kind': kind, 'code': 3032, 'img': 1, 'tgt': 0, 'gaze': [5 * T, 5 * T]})
         cs.append({'family': 'gaze_loss', 'kind': kind, 'code': 3032 if kind == 'metamer_mse' else 1032, 'img': 0, 'tgt': 0, 'gaze': [0, 0]})
-        cs.append({'family': 'gaze_loss', 'kind': kind, 'code': 3032, 'img': 2, 'tgt': 3, 'gaze': [10, 10], 'scale': rng.choice([1e-6, 50.0])})
+        cs.append({'family': 'gaze_loss', 'kind': kind, 'code': 3032, 'img': 2, 'tgt': 3, 'gaze': [GU, GU], 'scale': rng.choice([1e-6, 50.0])})
     return cs
 
 
@@ -558,6 +726,16 @@ def self_check(ctx, g):
             for vv in range(3):
                 cmp('pg_%d_%d' % (u, vv), env, e[0, 0, u, vv], 1e-4, 1e-5)
         cmp('pg_loss_t', env, pg(torch.tensor(im)), 1e-4, 1e-6)
+        # the combination of statistics maps (real objects without their constructors) and multi-scale total variation
+        sa = [rng.uniform(-1, 1, (1, 1, 1, 2)), rng.uniform(-1, 1, (1, 1, 1, 1))]; ta = [rng.uniform(-1, 1, (1, 1, 1, 2)), rng.uniform(-1, 1, (1, 1, 1, 1))]
+        env = {'sa_0_0_0_0': sa[0][0, 0, 0, 0], 'sa_0_0_0_1': sa[0][0, 0, 0, 1], 'sb_0_0_0_0': sa[1][0, 0, 0, 0],
+               'ta_0_0_0_0': ta[0][0, 0, 0, 0], 'ta_0_0_0_1': ta[0][0, 0, 0, 1], 'tb_0_0_0_0': ta[1][0, 0, 0, 0]}
+        o = P.MetamericLoss.__new__(P.MetamericLoss); o.use_radial_weight = False
+        cmp('met_stats_t', env, o.metameric_loss_stats([torch.tensor(z) for z in sa], [torch.tensor(z) for z in ta], [0.5, 0.5]), 1e-9, 1e-12)
+        o = P.MetamericLossUniform.__new__(P.MetamericLossUniform)
+        cmp('metu_stats_t', env, o.metameric_loss_stats([torch.tensor(z) for z in sa], [torch.tensor(z) for z in ta]), 1e-9, 1e-12)
+        f = rng.uniform(-2, 2, (1, 1, 2, 4))
+        cmp('mstv_t', {'f_0_0_%d_%d' % (i, j): f[0, 0, i, j] for i in range(2) for j in range(4)}, TL.multi_scale_total_variation_loss(torch.tensor(f), levels=2), 1e-9, 1e-12)
         p = rng.uniform(0, 1, (2, 2)); t2 = rng.uniform(0, 1, (2, 2)); peak = float(rng.choice([1.0, 255.0, 0.5]))
         env = {'p_%d_%d' % (i, j): p[i, j] for i in range(2) for j in range(2)}; env.update({'t_%d_%d' % (i, j): t2[i, j] for i in range(2) for j in range(2)}); env['peak'] = peak
         cmp('psnr_t', env, IQ.PSNR()(torch.tensor(p), torch.tensor(t2), peak_value=peak), 1e-9, 1e-12)
@@ -598,22 +776,44 @@ def hist_correspondence(ctx):
 
 
 # ================================================================ B2 (b): the state machines inside Coq
+def uniform_ops(ops):
+    """MetamericLossUniform takes no gaze: the machine is run with one constant gaze"""
+    return [['call', o[1], o[2], 0] if o[0] == 'call' else o for o in ops if o[0] != 'setgaze']
+
+
+def observed_events(kind, counts):
+    """(target value recomputed, LOD map recomputed) from the helper call counts of one loss call"""
+    lod, pyr = counts
+    if kind.startswith('blur'):
+        return (False, lod > 0)
+    if kind == 'metamer_mse':
+        return (pyr > 0, lod > 0)
+    return (pyr > 1, lod > 0)                      # one pyramid for the image, one more when the target is analysed again
+
+
 def machine_correspondence(ctx, hs, fresh):
     terms = []
     for (_, env, ops) in hs:
         for mach in (1, 2, 3):
             for d in ('repaired', 'legacy'):
                 terms.append('machine_run %d %s %s %s' % (mach, d, coq_env(env), coq_ops(ops)))
-    vals = ctx.coq_eval(PRE, terms, label='machines', chunk=60)
-    pred = {}
+            terms.append('machine_events %d repaired %s %s' % (mach, coq_env(env), coq_ops(ops)))
+        terms.append('machine_events 2 repaired %s %s' % (coq_env(env), coq_ops(uniform_ops(ops))))
+    vals = ctx.coq_eval(PRE, terms, label='machines', chunk=100)
+    pred = {}; events = {}
     k = 0
     for hi_, _ in enumerate(hs):
         for mach in (1, 2, 3):
             for d in ('repaired', 'legacy'):
                 pred[(hi_, mach, d)] = None if vals[k] is None else parse_runs(vals[k]); k += 1
-    mism = 0; total = 0; legacy_like = 0; uneval = 0
+            events[(hi_, mach)] = None if vals[k] is None else parse_runs(vals[k]); k += 1
+        events[(hi_, 'uniform')] = None if vals[k] is None else parse_runs(vals[k]); k += 1
+    mism = 0; total = 0; legacy_like = 0
+    ev_total = 0; stale_hits = []; extra_recomputes = 0; no_instr = 0
     for kind, (mach, _) in KINDS.items():
         for hi_, (label, env, ops) in enumerate(hs):
+            if kind == 'metameric_uniform' and label.startswith('gaze-step'):
+                continue                                  # takes no gaze
             inp = {'kind': kind, 'env': env, 'ops': ops, 'label': label}
             try:
                 recs = run_history(kind, env, ops)
@@ -621,32 +821,62 @@ def machine_correspondence(ctx, hs, fresh):
                 ctx.violation(fname('history', inp), 'no_exception', dict(inp, oracle='history'), 'a result', repr(e)[:300]); mism += 1
                 continue
             pr, pl = pred[(hi_, mach, 'repaired')], pred[(hi_, mach, 'legacy')]
+            ev = events[(hi_, 'uniform' if kind == 'metameric_uniform' else mach)]
             ncalls = sum(1 for o in ops if o[0] == 'call')
-            if pr is None or len(pr) != ncalls or len(recs) != ncalls:
+            if pr is None or ev is None or len(pr) != ncalls or len(ev) != ncalls or len(recs) != ncalls:
                 mism += 1; continue
-            seq_bad = False
-            for c, ((obs, ci, ct, g), d) in enumerate(zip(recs, pr)):
+            diverged = False
+            for c, ((obs, ci, ct, g, counts), d) in enumerate(zip(recs, pr)):
                 total += 1; ctx.traces += 1
                 exp = eval_descriptor(fresh, kind, d)
                 ok = exp is not None and close(obs, exp)
                 if not ok:
-                    mism += 1; seq_bad = True
+                    mism += 1
                     lv = eval_descriptor(fresh, kind, pl[c]) if pl and len(pl) == ncalls else None
-                    if lv is None: uneval += 1
                     if lv is not None and close(obs, lv): legacy_like += 1
                     if mism <= 6:
                         ctx.log('machine/implementation disagree: %s %s call %d: model(repaired)=%s -> %s, implementation=%s%s' % (
                             kind, label, c, d, exp, obs, '  [= the LEGACY discipline model]' if lv is not None and close(obs, lv) else ''))
+                # cache behaviour: the code may recompute more often than the model, never less
+                if isinstance(obs, str):
+                    if d[0] != 0:
+                        # the code raised where the model has no exception (e.g. MetamerMSELoss on a 1-channel image, which it
+                        # documents as unsupported; a fresh object raises as well): the object's state after an exception is not
+                        # modelled, so the cache events of the rest of this history are not compared
+                        diverged = True
+                    continue
+                if diverged:
+                    continue
+                if counts is None:
+                    no_instr += 1; continue
+                ev_total += 1
+                o_ref, o_lod = observed_events(kind, counts)
+                m_ref, m_lod = bool(ev[c][0]), bool(ev[c][1])
+                if kind == 'metameric_uniform':
+                    m_lod = False
+                for what, m, o in (('target statistics / metamer', m_ref, o_ref), ('LOD map', m_lod, o_lod)):
+                    if m and not o:
+                        stale_hits.append({'kind': kind, 'history': label, 'call': c, 'reused': what, 'env': env, 'ops': ops, 'helper_calls(lod, pyramid)': list(counts)})
+                        if len(stale_hits) <= 4:
+                            ctx.log('cache key misses an argument: %s %s call %d REUSED its cached %s where the model recomputes (ops=%s, gazes=%s)' % (kind, label, c, what, ops, env['gazes']))
+                    elif o and not m:
+                        extra_recomputes += 1
             ctx.case('history/%s/%s' % (kind, label), (kind, json.dumps(env), json.dumps(ops)), nontrivial=ncalls >= 2)
-            # the direct oracle on the same history gives the replayable input
-            if seq_bad or True:
-                apply_oracle(ctx, 'history', inp, fresh)
+            apply_oracle(ctx, 'history', inp, fresh)                 # the direct oracle on the same history gives the replayable input
             if len(ctx.samples) < 5 and label in ('gaze-edited-in-place', 'new-size') and kind in ('metameric', 'blur_lowpass'):
-                ctx.sample({'kind': kind, 'history': label, 'ops': ops, 'model_descriptors': pr, 'implementation': [r[0] for r in recs]})
+                ctx.sample({'kind': kind, 'history': label, 'ops': ops, 'model_descriptors': pr, 'model_events[target recomputed, lod recomputed]': ev,
+                            'implementation': [r[0] for r in recs], 'implementation_helper_calls(lod, pyramid)': [r[4] for r in recs]})
     detail = '%d of %d calls disagree (%d of them behave like the legacy discipline model)' % (mism, total, legacy_like)
     ctx.obligation('correspondence:state-machines(model run in Coq = implementation on %d calls of %d histories x %d loss configurations)' % (total, len(hs), len(KINDS)),
                    mism == 0 and total > 0, detail)
+    ctx.obligation('correspondence:cache-events(the code reuses a cached value only where the model does: %d calls observed)' % ev_total,
+                   not stale_hits and ev_total > 0 and no_instr == 0,
+                   ('%d reuses where the model recomputes, first: %s' % (len(stale_hits), json.dumps(stale_hits[0])[:600]) if stale_hits else '') +
+                   (' instrumentation points missing (make_pooling_size_map_lod / make_equi_pooling_size_map_lod in radially_varying_blur, SpatialSteerablePyramid.construct_pyramid)' if no_instr else ''))
     ctx.extra['history_calls_compared'] = total
+    ctx.extra['cache_event_calls_compared'] = ev_total
+    ctx.extra['calls_where_code_recomputes_more_than_model(allowed)'] = extra_recomputes
+    ctx.extra['cache_reuses_where_model_recomputes'] = stale_hits[:20]
 
 
 def run(ctx):
@@ -683,7 +913,7 @@ def run(ctx):
         g = None
         ctx.obligation('translator:trace', False, repr(e))
     if g is not None:
-        ctx.compile_tie('GenC17', g.text(), [['C17_TieA', 'C17_TieB', 'C17_TieC']])
+        ctx.compile_tie('GenC17', g.text(), [['C17_TieA', 'C17_TieB', 'C17_TieC', 'C17_TieD']])
         try:
             self_check(ctx, g)
         except Exception as e:
@@ -694,6 +924,8 @@ def run(ctx):
     fresh = Fresh()
     hs = gen_histories(ctx)
     machine_correspondence(ctx, hs, fresh)
+    ORACLES['rvb'] = oracle_rvb
+    rvb_key_check(ctx)
     ctx.exhaustive = True
     ctx.extra['exhaustive_domain'] = 'all histories of <= %d calls over 2 gaze lists x 2 targets x 2 image sizes, for each of %d loss configurations' % (3 if ctx.thorough else 2, len(KINDS))
     # ---- direct oracles: stateless clauses
@@ -717,6 +949,15 @@ def search(ctx):
             if len(ctx.viol) > 3: return
         ctx.thorough = False                      # histories: new random draws at the quick depth (bounded time)
         fresh = Fresh()
+        # a cache that reuses its value after small gaze moves: sweep the step size for a move that changes the value
+        for step in (2, 20, 200, 2000, 5000, 10000, 20000, 35000, 65000, 90000, 150000, 250000):
+            for (dx, dy) in ((step, 0), (0, step), (step, step)):
+                g0 = (430000, 610000); g1 = (g0[0] + dx, g0[1] + dy)
+                e = {'tensors': [(3032, 1), (3032, 2), (3032, 3)], 'gazes': [g0, g1]}
+                for ops in ([['call', 0, 1, 0], ['call', 0, 1, 1]], [['call', 0, 1, 0], ['setgaze', 0, list(g1)], ['call', 0, 1, 0]]):
+                    for kind in KINDS:
+                        apply_oracle(ctx, 'history', {'kind': kind, 'env': e, 'ops': ops, 'label': 'search-gaze-step'}, fresh)
+            if len(ctx.viol) > 3: return
         for (label, env, ops) in gen_histories(ctx):
             if label.startswith('exhaustive'):
                 continue
@@ -725,6 +966,9 @@ def search(ctx):
             if len(ctx.viol) > 3: return
     finally:
         ctx.thorough = old
+
+
+ORACLES['rvb'] = oracle_rvb
 
 
 def replay(ctx, rec):
